@@ -140,6 +140,25 @@ impl CRing for Poly<'H', FF<2>> {
     }
 }
 
+impl CRing for yui::FF2 {
+    type B = Fp<2>;
+    const NAME: &'static str = "FF2";
+    const FORMAL: (bool, bool) = (false, false);
+    fn param_h(h: i64) -> Self { yui::FF2::from(h.rem_euclid(2)) }
+    fn param_t(t: i64) -> Self { yui::FF2::from(t.rem_euclid(2)) }
+    fn to_ref(&self) -> RP<Fp<2>> { RP::constant(Fp::new(if self.is_zero() { 0 } else { 1 })) }
+}
+impl CRing for Poly<'H', yui::FF2> {
+    type B = Fp<2>;
+    const NAME: &'static str = "FF2[H]";
+    const FORMAL: (bool, bool) = (true, false);
+    fn param_h(_: i64) -> Self { Self::variable() }
+    fn param_t(t: i64) -> Self { Self::from_const(yui::FF2::from(t.rem_euclid(2))) }
+    fn to_ref(&self) -> RP<Fp<2>> {
+        self.iter().fold(RP::zero(), |s, (x, c)| s.add(&RP::mono(x.deg() as u32, 0, Fp::new(if c.is_zero() { 0 } else { 1 }))))
+    }
+}
+
 /// what the simulated execution hands back: per homological degree the q-degrees of the
 /// generators and the differential leaving that degree, already in reference form
 pub struct Snapshot<B: Base> {
